@@ -299,6 +299,9 @@ func (w *World) globalReadOnly(g *types.Var) []string {
 					elemPointer(fn, v, depth)
 					return
 				}
+				if w.calleeWritesNothingOld(x) {
+					continue
+				}
 				report(fn, x, "table passed to a call")
 			case *ssa.Range:
 				// map / string iteration: Next yields (ok, key, value) copies
@@ -370,8 +373,14 @@ func (w *World) globalReadOnly(g *types.Var) []string {
 				if !uses {
 					continue
 				}
+				if _, dbg := in.(*ssa.DebugRef); dbg {
+					continue
+				}
 				ld, ok := in.(*ssa.UnOp)
 				if !ok || ld.Op != token.MUL {
+					if w.addrOnlyDereferenced(fn, in, sg, func(f2 *ssa.Function, v ssa.Value) { readOnlyValue(f2, v, 0) }) {
+						continue
+					}
 					report(fn, in, "the variable is written or its address is taken")
 					continue
 				}
@@ -382,4 +391,162 @@ func (w *World) globalReadOnly(g *types.Var) []string {
 	sort.Strings(bad)
 	w.roCache[g] = bad
 	return bad
+}
+
+
+// calleeWritesNothingOld: the callee carries a contract whose frame rules out writes to memory
+// that existed before the call - `pure`, or an assigns clause naming only \fresh / \nothing. For a
+// module function the frame is a proved obligation of its own unit; for an external it is the
+// assumed contract.
+func (w *World) calleeWritesNothingOld(call *ssa.Call) bool {
+	callee := call.Call.StaticCallee()
+	if callee == nil {
+		return false
+	}
+	var c *Contract
+	if callee.Blocks != nil {
+		c = w.funcContract(callee)
+	} else {
+		c = w.externContract(callee)
+	}
+	if c == nil {
+		return false
+	}
+	if c.Flags["pure"] {
+		return true
+	}
+	as := c.ClausesOf("assigns")
+	if len(as) == 0 {
+		return false
+	}
+	for _, cl := range as {
+		for _, item := range splitTop(cl.Text, ',') {
+			if it := strings.TrimSpace(item); it != `\fresh` && it != `\nothing` && it != "" {
+				return false
+			}
+		}
+	}
+	return true
+}
+
+// addrOnlyDereferenced: instruction `in` of fn uses the ADDRESS of the global sg other than as the
+// operand of a load. Two idioms keep the variable read-only and are accepted:
+//   return &G          - and every call of this function, anywhere in the module, uses its result
+//                        only as the operand of a load (`*l.getStatementOid()`);
+//   list[i] = &G       - list is a local make([]*T, n) whose other uses are element stores of such
+//                        addresses, len, and ranging / indexing whose loaded pointers are only loaded
+//                        through.
+// Every value loaded through such a pointer is handed to `onLoad` (it is a read of the variable).
+func (w *World) addrOnlyDereferenced(fn *ssa.Function, in ssa.Instruction, sg *ssa.Global, onLoad func(*ssa.Function, ssa.Value)) bool {
+	derefOnly := func(f2 *ssa.Function, p ssa.Value) bool {
+		refs := p.Referrers()
+		if refs == nil {
+			return true
+		}
+		for _, r := range *refs {
+			switch x := r.(type) {
+			case *ssa.DebugRef:
+			case *ssa.UnOp:
+				if x.Op != token.MUL {
+					return false
+				}
+				onLoad(f2, x)
+			default:
+				return false
+			}
+		}
+		return true
+	}
+	switch x := in.(type) {
+	case *ssa.Return:
+		// all static call sites of fn
+		ok := true
+		found := false
+		for g := range allFunctions(w) {
+			for _, b := range g.Blocks {
+				for _, i2 := range b.Instrs {
+					c, isCall := i2.(*ssa.Call)
+					if !isCall || c.Call.StaticCallee() != fn {
+						continue
+					}
+					found = true
+					if !derefOnly(g, c) {
+						ok = false
+					}
+				}
+			}
+		}
+		// the function must not be reachable as a value (method value / interface dispatch would hide call sites)
+		if fn.Referrers() != nil && len(*fn.Referrers()) > 0 {
+			return false
+		}
+		_ = found
+		return ok && fn.Signature.Results().Len() == 1
+	case *ssa.Store:
+		if x.Val != ssa.Value(sg) {
+			return false
+		}
+		ia, isIA := x.Addr.(*ssa.IndexAddr)
+		if !isIA {
+			return false
+		}
+		// make([]*T, n): a MakeSlice, or (constant n) a fresh array sliced once
+		var ms ssa.Value
+		switch b := ia.X.(type) {
+		case *ssa.MakeSlice:
+			ms = b
+		case *ssa.Slice:
+			al, isAl := b.X.(*ssa.Alloc)
+			if !isAl || b.Low != nil || b.Max != nil {
+				return false
+			}
+			if b.High != nil {
+				if _, isC := b.High.(*ssa.Const); !isC {
+					return false
+				}
+			}
+			for _, r := range *al.Referrers() {
+				if r != ssa.Instruction(b) {
+					if _, dbg := r.(*ssa.DebugRef); !dbg {
+						return false
+					}
+				}
+			}
+			ms = b
+		default:
+			return false
+		}
+		for _, r := range *ms.Referrers() {
+			switch y := r.(type) {
+			case *ssa.DebugRef:
+			case *ssa.Call:
+				if b, isB := y.Call.Value.(*ssa.Builtin); !isB || (b.Name() != "len" && b.Name() != "cap") {
+					return false
+				}
+			case *ssa.IndexAddr:
+				for _, r2 := range *y.Referrers() {
+					switch z := r2.(type) {
+					case *ssa.DebugRef:
+					case *ssa.Store:
+						if z.Addr != ssa.Value(y) {
+							return false
+						}
+						if _, isG := z.Val.(*ssa.Global); !isG {
+							return false
+						}
+					case *ssa.UnOp:
+						if z.Op != token.MUL || !derefOnly(fn, z) {
+							return false
+						}
+					default:
+						return false
+					}
+				}
+			default:
+				return false
+			}
+		}
+		return true
+	}
+	return false
 }
